@@ -63,6 +63,30 @@ def pure_entry_points(ctx):
     X, yy = IndentationRater.load_training_set()
     record("compute_sample_weight", IndentationRater.compute_sample_weight,
            [X, yy])
+    # the rater's constructor with every array argument it takes
+    from nanite.rate.regressors import reg_dict
+    Xs, ys = X[::6].copy(), yy[::6].copy()
+    sw = np.linspace(1., 3., ys.size)
+
+    def make_rater(Xa, ya, w):
+        cls_, kw = reg_dict["Extra Trees"]
+        r = IndentationRater(regressor=cls_(**dict(kw)),
+                             training_set=(Xa, ya), sample_weight=w)
+        return float(r.rate(datasets=idnt)[0]) if False else 0.
+    record("IndentationRater(sample_weight)", make_rater, [Xs, ys, sw])
+    # legacy / unusual keys in the method keyword dictionary
+    for mk in ({"maxfev": 300}, {"maxiter": 50}, {"max_nfev": 300,
+                                                   "ftol": 1e-9}):
+        def fitkw(d, meth="leastsq"):
+            j = synth.make_curve(n_app=200, noise=3e-11, seed=12)
+            j.apply_preprocessing(world.PIPES["P1"][0])
+            try:
+                j.fit_model(model_key="hertz_para", method_kws=d)
+            except BaseException as exc:
+                if isinstance(exc, (KeyboardInterrupt, SystemExit)):
+                    raise
+            return 0.
+        record(f"fit_model(method_kws={sorted(mk)})", fitkw, [mk])
     names = ["feat_con_idt_sum", "feat_con_apr_sum", "feat_bin_size"]
     record("get_feature_names",
            lambda n: IndentationRater.get_feature_names(names=n), [names])
